@@ -58,7 +58,7 @@ CHECKS = {
           'built by the real add_* methods) are put through the first-request and order clauses for all ordered pairs.'),
     design_ref='DESIGN.md section 4 (C20)',
     note=('histories of length <= 3 over the listed methods (bounded in length, symbolic in all data); kernels/field functions assumed pure (thread-count independence of the compiled field wrappers is proved in C11); '
-          'change clause for assemblies/bays and plotting are not covered; 8 known findings (cached plyts), 1 fixed defect'),
+          'change clause for assemblies/bays and plotting are not covered; 21 known findings (ConeCyl keeps derived data and cached matrices of the first evaluation), 5 fixed defects'),
     technique='effect contracts + symbolic execution; structural comparison of result terms'),
  'C12': dict(
     category='proof',
